@@ -107,14 +107,19 @@ def _replay(hist):
                                 continue
                             admissible = sorted(_dirname(done[j - 1]) for j in idxs)
                             ref = f"${gg}.results.{_prefix(p, step['run']['t'])}:{which}.m1"
-                            try:
-                                path = cp.file_manager.get_named_file(ref)
-                            except Exception as e:
-                                return {"kind": "rundirs", "step": i, "ops": ops, "what": f"reference {ref} raised", "raised": f"{type(e).__name__}: {e}", "admissible": admissible}
-                            parts = path.split(os.sep)
-                            got = parts[-3]
-                            if got not in admissible or parts[-4] != gg or parts[-1] != "data.csv" or parts[-2] != "m1":
-                                return {"kind": "rundirs", "step": i, "ops": ops, "what": f"reference {ref}", "admissible": admissible, "got": path}
+                            # whoever asks gets the same answer: the instance that just ran, the long-lived instance that ran
+                            # earlier (if any), and an instance that never runs anything
+                            askers = [("the instance that ran", cp)] + ([("an instance that ran earlier", shared)] if (shared is not None and shared is not cp) else []) \
+                                + [("an instance that never ran", setup)]
+                            for who, asker in askers:
+                                try:
+                                    path = asker.file_manager.get_named_file(ref)
+                                except Exception as e:
+                                    return {"kind": "rundirs", "step": i, "ops": ops, "what": f"reference {ref} raised (asked by {who})", "raised": f"{type(e).__name__}: {e}", "admissible": admissible}
+                                parts = path.split(os.sep)
+                                got = parts[-3]
+                                if got not in admissible or parts[-4] != gg or parts[-1] != "data.csv" or parts[-2] != "m1":
+                                    return {"kind": "rundirs", "step": i, "ops": ops, "what": f"reference {ref} asked by {who}", "admissible": admissible, "got": path}
     finally:
         clock.uninstall()
     return None
